@@ -7,6 +7,18 @@ CHECKS = {
    text="Every construction event (term the caller wrote, tree claripy returned, values of claripy's Z3 translation) is validated by TLC against the SMT-LIB semantics written in TLA+ (spec/Term.tla): equality under ALL assignments for widths<=3 (bounded-exhaustive depth<=2 trees), sampled assignments for rule-directed and random deep trees at widths 1..128. An independent Z3 equivalence query is the second opinion before any alarm.",
    note="Trusted: TLC, the TLA+ semantics (self-tested against Z3 in setup), Python. Exhaustive only in the small scopes listed in the evidence; larger widths sampled.", ref="5 C01"),
 }
+SOLVER_TECH = "TLA+ abstract solver algebra (SolverAbs.tla) + trace validation by TLC (TraceSolver.tla) of recorded histories on the real frontends"
+SOLVER_NOTE = "Trusted: TLC, Term.tla semantics, Z3 inside claripy only as the system under test. Variables of width <= 3 so TLC enumerates every model; histories are seeded-random (length <= 10 + probe battery) over fixed constraint alphabets, REUSE_Z3_SOLVER on and off."
+def solver(pid, text, cat="model_checking", ref=None):
+    CHECKS[pid] = dict(engine="solver", cat=cat, tech=SOLVER_TECH, text=text, note=SOLVER_NOTE, ref=ref or ("5 " + pid))
+solver("C11", "Every public call of random histories on Solver / SolverCacheless / SolverStrings (with a probe battery of exhaustive evals, signed/unsigned min/max and solution queries after each history) is checked by TLC against the allowed-outcome relation of SolverAbs at the abstract state (set of models) computed from the logged inputs only.")
+solver("C12", "SolverComposite histories over three variables whose constraints connect and disconnect groups (adds, all queries with bridging extra constraints, branch, simplify, split, combine, merge) validated by TLC against the same monolithic model-set semantics.")
+solver("C13", "SolverReplacement (default and auto_replace=False), SolverHybrid in exact mode validated against the exact relation; SolverVSA and SolverHybrid(exact=False / approximate_first) against the over-approximation relation (never unsat on sat, never exclude a value, bounds on the right side).")
+solver("C14", "Branch-heavy histories on trees of up to 5 solver objects of every frontend class; isolation is per-id correctness in SolverAbs (Branch copies the model set, no later action on one id mentions the other); probe battery on every live id.")
+solver("C15", "merge (with and without ancestor), combine and split on solvers produced by random histories: TLC computes the documented model sets (union of condition_i /\\ models_i, intersection, variable-disjoint parts carrying every conjunct and jointly equivalent) and checks the results and all later answers of the results.")
+solver("C16", "Tracked Solver / SolverCacheless / SolverComposite histories with unsat_core(): TLC checks empty core on satisfiable sets, every element a constraint that was added (or currently held), and unsatisfiability of the conjunction of the core by enumeration.")
+solver("C17", "Fault injection: z3.Solver.check returns unknown (timeout / resource limit / other) at the k-th check of a random operation; TLC requires a claripy error for the faulted call and validates every later answer of the solver and its branches against the unchanged model set.", cat="fault_enumeration")
+solver("C18", "Histories with in-process pickle round trips of every frontend class after arbitrary prefixes; the unpickled solver is a new id with the same model set in SolverAbs and every later answer of both copies is validated.")
 NOT_YET = "check not built yet in this round (planned in DESIGN.md section 5); not claimed"
 def main():
     props = [json.loads(l)["id"] for l in open(os.path.join(V, "properties.jsonl"))]
@@ -33,6 +45,7 @@ def main():
                   "source_commits": [], "add_only": True},
         "engines": [
             {"name": "expr", "path": "harness/eng_expr.py", "serves_properties": ["C01", "C04", "C05"], "kind_free_text": "construction events -> TLC (TraceExpr.tla) constant-level trace validation against Term.tla"},
+            {"name": "solver", "path": "harness/eng_solver.py", "serves_properties": ["C11", "C12", "C13", "C14", "C15", "C16", "C17", "C18"], "kind_free_text": "solver histories on real frontends -> TLC (TraceSolver.tla) trace validation against SolverAbs.tla"},
         ],
         "checks": checks,
         "notes": "Model-based verification with explicit TLA+ specs under /verif/spec; see DESIGN.md. fix: commits in /repo are listed in known_findings.json as 'fixed:' entries.",
